@@ -20,6 +20,21 @@ use std::sync::atomic::{AtomicBool, AtomicUsize, Ordering};
 use std::sync::{Arc, TryLockError};
 
 use may::sync::{RwLock, RwLockReadGuard, RwLockWriteGuard};
+use std::alloc::{GlobalAlloc, Layout, System};
+
+/// never reuse an address: the virtual ThreadPark token of the harness is keyed by address, and the trace normaliser
+/// numbers objects by address.  (Without it a ThreadPark allocated at the address of a freed one inherited a pending
+/// virtual token: a reader thread returned from lock() early in 1 of ~5500 traces, VERIF_SEED=4, and the acceptor
+/// rejected the trace - an artifact of the harness, not of RwLock.)
+struct Leak;
+unsafe impl GlobalAlloc for Leak {
+    unsafe fn alloc(&self, l: Layout) -> *mut u8 {
+        System.alloc(l)
+    }
+    unsafe fn dealloc(&self, _p: *mut u8, _l: Layout) {}
+}
+#[global_allocator]
+static GLOBAL: Leak = Leak;
 
 fn envn(k: &str, d: usize) -> usize {
     std::env::var(k).ok().and_then(|s| s.parse().ok()).unwrap_or(d)
